@@ -96,7 +96,14 @@ def isinstance_kinds(f):
             ty = n.args[1]
             out += [U(x) for x in (ty.elts if isinstance(ty, ast.Tuple)
                                    else [ty])]
-    return out
+        # the same test written as a class pattern: match p: case T(): ...
+        if isinstance(n, ast.Match) and U(n.subject) == p:
+            for c in n.cases:
+                for q in ast.walk(c.pattern):
+                    if isinstance(q, ast.MatchClass) and not q.patterns \
+                            and not q.kwd_patterns:
+                        out.append(U(q.cls))
+    return list(dict.fromkeys(out))
 
 
 def r2_walkers(ctx):
